@@ -116,6 +116,10 @@ def t_warmup(t, case):
     (parser_checks.execute builds the others from it)"""
     if len(case['sentences']) == 1 and t.tail(2) % 3 == 0:
         case['warmup'] = 1 + t.tail(3) % 2
+    if len(case['sentences']) == 1 and t.tail(4) % 4 == 0:
+        # the call takes the multi-process branch of depccg.parsing.run (native.PicklingSyncPool): arguments and
+        # results are pickled as between processes
+        case['via_pool'] = True
 
 
 def t_table_case(t, head_modes=('left', 'right'), n_max=5, T_max=4, K_max=7, nbest_max=1,
